@@ -10,7 +10,7 @@ def run(tier):
     progs += [en.Prog("flat3-lim1", en.st.CURATED["flat3"], sublimit=1), en.Prog("deep3-lim1", en.st.CURATED["deep3"], sublimit=1)]
     classes = en.cls("REQ", "SELECT", "RNG", "UTIL", "RANK")
     args = ["--tier", tier, "--dev", "2" if thorough else "1", "--batch", "3" if thorough else "2",
-            "--classes", str(classes), "--deadline", str(1500 if thorough else 150), "--dev-immediate", "1" if thorough else "0"]
+            "--classes", str(classes), "--deadline", str(en.TD if thorough else 150), "--dev-immediate", "1" if thorough else "0"]
     if thorough:
         fam = en.systematic(4) + en.spines()
         for p in fam:
@@ -21,7 +21,7 @@ def run(tier):
         for p in progs:
             if p.name in ("mixed14", "ortho89", "nestutil"):
                 p.args = ["--batch", "1"]  # the big programs: all single requests + deviations; pairs are covered on the smaller ones
-    res = en.run_all(chk, "C02", progs, args, timeout=(2400 if thorough else 400))
+    res = en.run_all(chk, "C02", progs, args, timeout=(en.TD + 900 if thorough else 400))
     en.aggregate(chk, res, "C02")
     chk.coverage["explanation"] = (
         "Every edge of the exhaustive exploration (BFS fixpoint over quiescent states; all request kinds x all "
